@@ -148,6 +148,7 @@ pub struct JobCtx<'a> {
     pub want_sample: bool,
     pub det_check: bool,
     pub stop_on_fail: bool,
+    pub planlog: Option<std::path::PathBuf>,
 }
 
 #[derive(Clone, Debug, Default, Serialize, Deserialize)]
@@ -422,6 +423,10 @@ impl<'a> JobCtx<'a> {
     }
 
     pub fn eval_out(&mut self, plan: &Plan) -> (Outcome, Vec<Violation>) {
+        if let Some(path) = &self.planlog {
+            // post-mortem mode: remember the plan about to run (the process may not survive it)
+            let _ = std::fs::write(path, serde_json::to_string(plan).unwrap_or_default());
+        }
         let out = sim::simulate(plan);
         let (mine, other) = judge_for(self.check, plan, &out);
         let st = &mut self.stats;
@@ -619,9 +624,14 @@ pub fn run_batch(check: &dyn Check, tier: Tier, seed: u64, known: &Known) -> Bat
     let start = Instant::now();
     let idhash = rng::fnv(check.id().as_bytes());
     let tier_n = if tier == Tier::Quick { 1 } else { 2 };
+    let journal: Option<std::fs::File> = std::env::var("SIM_JOURNAL")
+        .ok()
+        .and_then(|p| std::fs::OpenOptions::new().create(true).write(true).truncate(true).open(p).ok());
+    let slot = AtomicU64::new(0);
     std::thread::scope(|s| {
         for _ in 0..workers {
             s.spawn(|| {
+                let my_slot = slot.fetch_add(1, Ordering::Relaxed);
                 let mut ctx = JobCtx {
                     check,
                     known,
@@ -631,6 +641,7 @@ pub fn run_batch(check: &dyn Check, tier: Tier, seed: u64, known: &Known) -> Bat
                     want_sample: false,
                     det_check: false,
                     stop_on_fail: false,
+                    planlog: None,
                 };
                 loop {
                     if stop.load(Ordering::Relaxed) {
@@ -641,6 +652,11 @@ pub fn run_batch(check: &dyn Check, tier: Tier, seed: u64, known: &Known) -> Bat
                         break;
                     }
                     for job in base..(base + 16).min(jobs_total) {
+                        if let Some(j) = &journal {
+                            // which job this worker is in, for post-mortem after a process abort
+                            use std::os::unix::fs::FileExt;
+                            let _ = j.write_at(&(job + 1).to_le_bytes(), my_slot * 8);
+                        }
                         let mut rng = Rng::new(rng::mix(&[seed, idhash, tier_n, job]));
                         ctx.job = job;
                         ctx.sub = 0;
